@@ -16,6 +16,8 @@ use crate::schedx::{CaseInfo, Judgement};
 
 #[derive(Clone, Debug)]
 pub struct Case {
+    /// this opener asks for direct_writes (O_DIRECT); a refusal by the file system (EINVAL) is a legitimate answer
+    pub direct: Option<usize>,
     /// the length query this opener makes under the lock fails (EIO): its open must report the error
     pub stat_fault: Option<usize>,
     /// this opener, once inside, makes a commit that grows the file before its ordinary one
@@ -39,28 +41,32 @@ pub struct Case {
 pub fn cases(tier: Tier) -> Vec<Case> {
     let q = tier == Tier::Quick;
     vec![
-        Case { stat_fault: None, grow_plain: None, sync_fault_grow: None, second_fd: false, procs: false, init_fault: None, eintr: false, openers: 2, file_exists: true, bound: if q { 6 } else { 12 } },
-        Case { stat_fault: None, grow_plain: None, sync_fault_grow: None, second_fd: false, procs: false, init_fault: None, eintr: false, openers: 2, file_exists: false, bound: if q { 4 } else { 8 } },
-        Case { stat_fault: None, grow_plain: None, sync_fault_grow: None, second_fd: false, procs: false, init_fault: None, eintr: false, openers: 3, file_exists: true, bound: if q { 2 } else { 3 } },
-        Case { stat_fault: None, grow_plain: None, sync_fault_grow: None, second_fd: false, procs: false, init_fault: None, eintr: false, openers: 3, file_exists: false, bound: if q { 2 } else { 3 } },
-        Case { stat_fault: None, grow_plain: None, sync_fault_grow: None, second_fd: false, procs: false, init_fault: None, eintr: true, openers: 2, file_exists: true, bound: if q { 3 } else { 6 } },
-        Case { stat_fault: None, grow_plain: None, sync_fault_grow: None, second_fd: false, procs: false, init_fault: None, eintr: true, openers: 3, file_exists: false, bound: if q { 1 } else { 2 } },
-        Case { stat_fault: None, grow_plain: None, sync_fault_grow: None, second_fd: false, procs: false, init_fault: Some(0), eintr: false, openers: 3, file_exists: false, bound: if q { 2 } else { 3 } },
-        Case { stat_fault: None, grow_plain: None, sync_fault_grow: None, second_fd: false, procs: false, init_fault: Some(1), eintr: false, openers: 3, file_exists: false, bound: if q { 1 } else { 2 } },
-        Case { stat_fault: None, grow_plain: None, sync_fault_grow: Some(0), second_fd: false, procs: false, init_fault: None, eintr: false, openers: 2, file_exists: true, bound: if q { 2 } else { 4 } },
-        Case { stat_fault: None, grow_plain: None, sync_fault_grow: Some(0), second_fd: false, procs: true, init_fault: None, eintr: false, openers: 2, file_exists: true, bound: if q { 3 } else { 6 } },
+        Case { direct: None, stat_fault: None, grow_plain: None, sync_fault_grow: None, second_fd: false, procs: false, init_fault: None, eintr: false, openers: 2, file_exists: true, bound: if q { 6 } else { 12 } },
+        Case { direct: None, stat_fault: None, grow_plain: None, sync_fault_grow: None, second_fd: false, procs: false, init_fault: None, eintr: false, openers: 2, file_exists: false, bound: if q { 4 } else { 8 } },
+        Case { direct: None, stat_fault: None, grow_plain: None, sync_fault_grow: None, second_fd: false, procs: false, init_fault: None, eintr: false, openers: 3, file_exists: true, bound: if q { 2 } else { 3 } },
+        Case { direct: None, stat_fault: None, grow_plain: None, sync_fault_grow: None, second_fd: false, procs: false, init_fault: None, eintr: false, openers: 3, file_exists: false, bound: if q { 2 } else { 3 } },
+        Case { direct: None, stat_fault: None, grow_plain: None, sync_fault_grow: None, second_fd: false, procs: false, init_fault: None, eintr: true, openers: 2, file_exists: true, bound: if q { 3 } else { 6 } },
+        Case { direct: None, stat_fault: None, grow_plain: None, sync_fault_grow: None, second_fd: false, procs: false, init_fault: None, eintr: true, openers: 3, file_exists: false, bound: if q { 1 } else { 2 } },
+        Case { direct: None, stat_fault: None, grow_plain: None, sync_fault_grow: None, second_fd: false, procs: false, init_fault: Some(0), eintr: false, openers: 3, file_exists: false, bound: if q { 2 } else { 3 } },
+        Case { direct: None, stat_fault: None, grow_plain: None, sync_fault_grow: None, second_fd: false, procs: false, init_fault: Some(1), eintr: false, openers: 3, file_exists: false, bound: if q { 1 } else { 2 } },
+        Case { direct: None, stat_fault: None, grow_plain: None, sync_fault_grow: Some(0), second_fd: false, procs: false, init_fault: None, eintr: false, openers: 2, file_exists: true, bound: if q { 2 } else { 4 } },
+        Case { direct: None, stat_fault: None, grow_plain: None, sync_fault_grow: Some(0), second_fd: false, procs: true, init_fault: None, eintr: false, openers: 2, file_exists: true, bound: if q { 3 } else { 6 } },
         // the holder grows the file while the others wait (every second opener maps with populate)
-        Case { stat_fault: None, grow_plain: Some(0), sync_fault_grow: None, second_fd: false, procs: false, init_fault: None, eintr: false, openers: 2, file_exists: true, bound: if q { 2 } else { 4 } },
-        Case { stat_fault: None, grow_plain: Some(0), sync_fault_grow: None, second_fd: false, procs: true, init_fault: None, eintr: false, openers: 2, file_exists: true, bound: if q { 3 } else { 6 } },
+        Case { direct: None, stat_fault: None, grow_plain: Some(0), sync_fault_grow: None, second_fd: false, procs: false, init_fault: None, eintr: false, openers: 2, file_exists: true, bound: if q { 2 } else { 4 } },
+        Case { direct: None, stat_fault: None, grow_plain: Some(0), sync_fault_grow: None, second_fd: false, procs: true, init_fault: None, eintr: false, openers: 2, file_exists: true, bound: if q { 3 } else { 6 } },
         // the waiting opener's length query fails
-        Case { stat_fault: Some(1), grow_plain: None, sync_fault_grow: None, second_fd: false, procs: false, init_fault: None, eintr: false, openers: 2, file_exists: true, bound: if q { 2 } else { 4 } },
-        Case { stat_fault: Some(1), grow_plain: None, sync_fault_grow: None, second_fd: false, procs: true, init_fault: None, eintr: false, openers: 2, file_exists: true, bound: if q { 3 } else { 6 } },
+        Case { direct: None, stat_fault: Some(1), grow_plain: None, sync_fault_grow: None, second_fd: false, procs: false, init_fault: None, eintr: false, openers: 2, file_exists: true, bound: if q { 2 } else { 4 } },
+        Case { direct: None, stat_fault: Some(1), grow_plain: None, sync_fault_grow: None, second_fd: false, procs: true, init_fault: None, eintr: false, openers: 2, file_exists: true, bound: if q { 3 } else { 6 } },
+        // an opener that asks for direct writes, on a fresh and on an existing file
+        Case { direct: Some(0), stat_fault: None, grow_plain: None, sync_fault_grow: None, second_fd: false, procs: false, init_fault: None, eintr: false, openers: 2, file_exists: false, bound: if q { 2 } else { 4 } },
+        Case { direct: Some(0), stat_fault: None, grow_plain: None, sync_fault_grow: None, second_fd: false, procs: true, init_fault: None, eintr: false, openers: 2, file_exists: false, bound: if q { 3 } else { 6 } },
+        Case { direct: Some(1), stat_fault: None, grow_plain: None, sync_fault_grow: None, second_fd: false, procs: true, init_fault: None, eintr: false, openers: 2, file_exists: true, bound: if q { 2 } else { 4 } },
         // the same bodies as real processes under the kernel's own flock
-        Case { stat_fault: None, grow_plain: None, sync_fault_grow: None, second_fd: false, procs: true, init_fault: None, eintr: false, openers: 2, file_exists: true, bound: if q { 4 } else { 12 } },
-        Case { stat_fault: None, grow_plain: None, sync_fault_grow: None, second_fd: false, procs: true, init_fault: None, eintr: false, openers: 2, file_exists: false, bound: if q { 4 } else { 8 } },
-        Case { stat_fault: None, grow_plain: None, sync_fault_grow: None, second_fd: false, procs: true, init_fault: None, eintr: false, openers: 3, file_exists: false, bound: if q { 2 } else { 3 } },
-        Case { stat_fault: None, grow_plain: None, sync_fault_grow: None, second_fd: true, procs: true, init_fault: None, eintr: false, openers: 2, file_exists: true, bound: if q { 3 } else { 6 } },
-        Case { stat_fault: None, grow_plain: None, sync_fault_grow: None, second_fd: false, procs: true, init_fault: Some(0), eintr: false, openers: 3, file_exists: false, bound: if q { 1 } else { 2 } },
+        Case { direct: None, stat_fault: None, grow_plain: None, sync_fault_grow: None, second_fd: false, procs: true, init_fault: None, eintr: false, openers: 2, file_exists: true, bound: if q { 4 } else { 12 } },
+        Case { direct: None, stat_fault: None, grow_plain: None, sync_fault_grow: None, second_fd: false, procs: true, init_fault: None, eintr: false, openers: 2, file_exists: false, bound: if q { 4 } else { 8 } },
+        Case { direct: None, stat_fault: None, grow_plain: None, sync_fault_grow: None, second_fd: false, procs: true, init_fault: None, eintr: false, openers: 3, file_exists: false, bound: if q { 2 } else { 3 } },
+        Case { direct: None, stat_fault: None, grow_plain: None, sync_fault_grow: None, second_fd: true, procs: true, init_fault: None, eintr: false, openers: 2, file_exists: true, bound: if q { 3 } else { 6 } },
+        Case { direct: None, stat_fault: None, grow_plain: None, sync_fault_grow: None, second_fd: false, procs: true, init_fault: Some(0), eintr: false, openers: 3, file_exists: false, bound: if q { 1 } else { 2 } },
     ]
 }
 
@@ -68,7 +74,7 @@ pub fn case_infos(tier: Tier) -> Vec<CaseInfo> {
     cases(tier)
         .iter()
         .map(|c| CaseInfo {
-            label: format!("{}{}openers-{}{}-c{}", if c.procs { "processes-" } else { "" }, c.openers, if c.file_exists { "existing" } else { "absent" }, if c.grow_plain.is_some() { "-holder-grows-file" } else if c.stat_fault.is_some() { "-lengthqueryfail" } else if c.sync_fault_grow.is_some() { "-syncfail-then-growth" } else if c.second_fd { "-second-descriptor" } else if c.eintr { "-one-EINTR" } else if let Some(i) = c.init_fault { if i == 0 { "-initfail0" } else { "-initfail1" } } else { "" }, c.bound),
+            label: format!("{}{}openers-{}{}-c{}", if c.procs { "processes-" } else { "" }, c.openers, if c.file_exists { "existing" } else { "absent" }, if c.direct.is_some() { "-direct-writes" } else if c.grow_plain.is_some() { "-holder-grows-file" } else if c.stat_fault.is_some() { "-lengthqueryfail" } else if c.sync_fault_grow.is_some() { "-syncfail-then-growth" } else if c.second_fd { "-second-descriptor" } else if c.eintr { "-one-EINTR" } else if let Some(i) = c.init_fault { if i == 0 { "-initfail0" } else { "-initfail1" } } else { "" }, c.bound),
             describe: json!({"openers_are": if c.procs { "child processes released one system call at a time; flock answered by the kernel" } else { "threads; flock modelled by the scheduler" }, "openers": c.openers, "file": if c.file_exists { "exists (empty database, closed)" } else { "does not exist yet" }, "opener_body": "open(path); inside += 1; commit own marker; read all markers; yield; inside -= 1; close", "preemption_bound": c.bound}),
         })
         .collect()
@@ -107,7 +113,7 @@ fn markers(tx: &jammdb::Tx, n: usize) -> Result<Vec<usize>, String> {
 
 pub fn run_one(case: &Case, path: &str, prefix: &[u8], policy: RwPolicy) -> (ExecResult, Vec<Judgement>, String) {
     if case.procs {
-        let pc = crate::c13p::PCase { openers: case.openers, file_exists: case.file_exists, init_fault: case.init_fault, second_fd: case.second_fd, sync_fault_grow: case.sync_fault_grow, stat_fault: case.stat_fault, grow_plain: case.grow_plain };
+        let pc = crate::c13p::PCase { openers: case.openers, file_exists: case.file_exists, init_fault: case.init_fault, second_fd: case.second_fd, sync_fault_grow: case.sync_fault_grow, stat_fault: case.stat_fault, grow_plain: case.grow_plain, direct: case.direct };
         return crate::c13p::run_one(&pc, path, prefix);
     }
     let _ = std::fs::remove_file(path);
@@ -126,7 +132,8 @@ pub fn run_one(case: &Case, path: &str, prefix: &[u8], policy: RwPolicy) -> (Exe
         let inside = inside.clone();
         let obs = obs.clone();
         // every opener asks for a different initial size (only the creator's may matter)
-        let cfg = Cfg { num_pages: 16 * (i + 1), populate: i % 2 == 1, ..cfg.clone() };
+        let direct = case.direct == Some(i);
+        let cfg = Cfg { num_pages: 16 * (i + 1), populate: i % 2 == 1, direct, ..cfg.clone() };
         let path = path.to_string();
         let init_fault = case.init_fault == Some(i) || case.stat_fault == Some(i);
         let stat_fault = case.stat_fault == Some(i);
@@ -160,6 +167,11 @@ pub fn run_one(case: &Case, path: &str, prefix: &[u8], policy: RwPolicy) -> (Exe
             };
             let db = match db {
                 Ok(Ok(db)) => db,
+                Ok(Err(jammdb::Error::Io(e))) if direct && e.raw_os_error() == Some(libc::EINVAL) => {
+                    // the file system refuses direct I/O of this shape: staying outside is fine
+                    obs.lock().unwrap().interrupted.push(i);
+                    return;
+                }
                 Ok(Err(jammdb::Error::Io(e))) if e.kind() == std::io::ErrorKind::Interrupted => {
                     // a signal interrupted the wait for the lock: reporting the error (and staying
                     // outside) is a legitimate answer
@@ -258,7 +270,7 @@ pub fn run_one(case: &Case, path: &str, prefix: &[u8], policy: RwPolicy) -> (Exe
     let interrupted = o.interrupted.clone();
     if !interrupted.is_empty() {
         outcome.push_str(&format!("eintr{:?};", interrupted));
-        if !case.eintr && case.init_fault.is_none() && case.stat_fault.is_none() {
+        if !case.eintr && case.init_fault.is_none() && case.stat_fault.is_none() && case.direct.is_none() {
             js.push(Judgement { class: "open_failed".into(), detail: format!("openers {:?} got Interrupted although no signal was injected", interrupted) });
         }
     }
